@@ -537,7 +537,10 @@ def evaluate(sc):
                 if reference is None:
                     continue
                 stats["fix_stream_vs_scan_checked"] += 1
-                candidates = [got, got[:-1]] if last_pragma else [got]
+                # a trailing pragma token may be delivered in fix passes - but only a document
+                # that contains pragma lines has one
+                has_pragma_lines = b"<!-- pyml" in content or b"<!--- pyml" in content or b"pyml " in content
+                candidates = [got, got[:-1]] if (last_pragma and has_pragma_lines) else [got]
                 if reference not in candidates:
                     out.append(
                         violation(
